@@ -227,7 +227,7 @@ func TagSource(config *TagSourceConfig) func(*promise.Promise) (any, bool) {
 			decoder.DisallowUnknownFields()
 
 			// valid json is a match
-			if err := decoder.Decode(&recv); err == nil && recv.Type != "" {
+			if err := decoder.Decode(&recv); err == nil && recv != nil && recv.Type != "" {
 				return recv, true
 			}
 
